@@ -5,6 +5,7 @@ Theorems over the core evaluator (XrayModel/Core.lean).
 import XrayProofs.CoreErrors
 import XrayProofs.CoreXErrors
 import XrayProofs.CoreXTco
+import XrayProofs.CoreXConservative
 namespace XrayModel.C06
 open XrayModel.Core
 
@@ -1131,5 +1132,33 @@ theorem tail_never_escapes_x (fuel : Nat) (cfg : Cfg) (fr : Frame) (st : St) (a 
   · intro es h; have := H.evalList fr es st; rw [h] at this; simp [exNoTail] at this
   · intro ds h; have := H.evalDecls { env := [], self := none, height := 0 } ds {}
     rw [runProgram] at h; rw [h] at this; simp [exNoTail] at this
+
+end XrayModel.C06
+
+
+/-! # The two models agree on the old fragment -/
+namespace XrayModel.C06
+open XrayModel XrayModel.Conservative
+
+/-- The extended evaluator is conservative over the core evaluator: for every expression `e` of the
+old language (every `Core.Expr`; `embE` embeds it — no new constructor occurs), every frame,
+configuration, state, tail flag and fuel, if the old model's outcome is anything but `stuck`
+(a value, an error value, a violation, a tail request, out of fuel), the extended model gives the
+same outcome and the same state on the embedded input; likewise for a whole program.  (`stuck` has
+to be excluded: `some(1)` is an unknown function for the old model and a value for the extended one
+— see the example below.) -/
+theorem corex_conservative (fuel : Nat) (cfg : Core.Cfg) :
+    (∀ fr e tail st r s', Core.eval fuel cfg fr e tail st = (r, s') → r.isStuck = false →
+      CoreX.eval fuel (embCfg cfg) (embFr fr) (embE e) tail (embSt st) = (embR r, embSt s')) ∧
+    (∀ ds x s', Core.runProgram fuel cfg ds = (x, s') → exStuck x = false →
+      CoreX.runProgram fuel (embCfg cfg) (embDs ds) = (embXF x, embSt s')) := by
+  refine ⟨fun fr e tail st r s' h hne => (consAt fuel).eval h hne, fun ds x s' h hne => ?_⟩
+  exact (consAt fuel).evalDecls (fr := { env := [], self := none, height := 0 }) (st := {}) h hne
+
+/-- the exclusion is needed: `some(1)` -/
+example : Core.eval 5 {} { env := [], self := none, height := 0 } (.call "some" [.int 1]) false {}
+      = (.stuck "unknown function some", {}) ∧
+    CoreX.eval 5 {} { env := [], self := none, height := 0 } (embE (.call "some" [.int 1])) false {}
+      = (.val (.some (.int 1)), {}) := ⟨rfl, rfl⟩
 
 end XrayModel.C06
